@@ -235,6 +235,15 @@ class SymSession(_Base):
     def eq(self, a, b):
         return a == b
 
+    def close(self, a, b, tol=1e-9):
+        """|a - b| <= tol * (1 + |b|), or both NaN.  For obligations whose two
+        sides are computed from *concrete* doubles on a path (rounding differs
+        between the code's and the oracle's order of operations)."""
+        x, y = V.lift(unwrap(a)), V.lift(unwrap(b))
+        d = V.v_abs(V.v_sub(x, y))
+        bound = V.v_mul(V.lift(tol), V.v_add(V.lift(1.0), V.v_abs(y)))
+        return V.mkbool(V.b_or(V.b_and(x.nan, y.nan), V.e_le(d, bound)))
+
     def prove(self, label, cond, twin=None, detail=None):
         c = V.unbool(cond)
         t = None if twin is None else V.unbool(twin)
@@ -340,6 +349,12 @@ class ConcSession(_Base):
 
     def eq(self, a, b):
         return self.same(a, b)
+
+    def close(self, a, b, tol=1e-9):
+        a, b = float(a), float(b)
+        if math.isnan(a) or math.isnan(b):
+            return math.isnan(a) and math.isnan(b)
+        return abs(a - b) <= max(tol, 1e-7) * (1 + abs(b))
 
     def prove(self, label, cond, twin=None, detail=None):
         self.results.append((label, bool(cond), detail))
